@@ -436,10 +436,10 @@ def make_cases(ctx):
     for kn, spec in KEYS.items():
         if t not in spec[2]:
             continue
-        for rep in range(ctx.pick(3, 12)):
+        for rep in range(ctx.pick(8, 30)):
             yield "dec/%s/em/%d" % (kn, rep), dict(f="dec", key=kn, part="em")
             yield "dec/%s/raw/%d" % (kn, rep), dict(
-                f="dec", key=kn, part="raw", nrand=ctx.pick(12, 40))
+                f="dec", key=kn, part="raw", nrand=ctx.pick(24, 60))
         yield "dec/%s/own" % kn, dict(f="dec", key=kn, part="own")
         if not ctx.quick or kn in ("cli1024",):
             yield "dec/%s/full" % kn, dict(f="dec", key=kn, part="em",
